@@ -1,12 +1,12 @@
 SPECIFICATION Spec
 CONSTANTS
-  Programs <- ProgramsThorough
+  Programs <- ProgramsQuick
   Clients = {1, 2}
-  Kinds = {"plain"}
+  Kinds = {"plain", "tls"}
   CloseTarget = "own"
   RegisterGuard = TRUE
-  Handshakes = FALSE
-  HsGuard = TRUE
+  Handshakes = TRUE
+  HsGuard = FALSE
   Record = FALSE
 INVARIANTS ServingWhileRunning RegistryExact StopPostcondition
 CHECK_DEADLOCK FALSE
